@@ -508,6 +508,76 @@ theorem withConfig_reach (D : Desc V Ov) (c : Config V Ov) (i : Nat) (ov : Ov) (
     simp only [upd_same, upd_upd, setPhase_setPhase] at this
     exact this
 
+/-! ## the uninterrupted `WithConfig`, directly -/
+
+theorem buildAll_spec (D : Desc V Ov) (typ : String) (ov : Ov) :
+    ∀ (slots acc : List (String × Addr)) (cells : List V),
+      (∀ sa ∈ slots, sa.2 < cells.length) → (∀ sa ∈ acc, sa.2 < cells.length) →
+      (∃ t, (buildAll D typ ov cells slots acc).1 = cells ++ t) ∧
+      (∀ sa ∈ (buildAll D typ ov cells slots acc).2, sa.2 < (buildAll D typ ov cells slots acc).1.length) ∧
+      viewOf (buildAll D typ ov cells slots acc).1 (buildAll D typ ov cells slots acc).2 =
+        viewOf cells acc ++ overlayView D typ ov (viewOf cells slots) := by
+  intro slots
+  induction slots with
+  | nil =>
+    intro acc cells _ hacc
+    simp only [buildAll]
+    exact ⟨⟨[], by simp⟩, hacc, by simp [viewOf, overlayView]⟩
+  | cons sa todo ih =>
+    intro acc cells hsl hacc
+    have hsa : sa.2 < cells.length := hsl sa List.mem_cons_self
+    rcases buildSlot_spec D typ ov cells sa hsa with ⟨⟨t, ht⟩, hname, hlt, hval⟩
+    have hle : cells.length ≤ (buildSlot D typ ov cells sa).1.length := by rw [ht, List.length_append]; omega
+    have htodo : ∀ x ∈ todo, x.2 < (buildSlot D typ ov cells sa).1.length := fun x hx =>
+      Nat.lt_of_lt_of_le (hsl x (List.mem_cons_of_mem _ hx)) hle
+    have hacc' : ∀ x ∈ acc ++ [(buildSlot D typ ov cells sa).2], x.2 < (buildSlot D typ ov cells sa).1.length := by
+      intro x hx
+      rcases List.mem_append.mp hx with hx | hx
+      · exact Nat.lt_of_lt_of_le (hacc x hx) hle
+      · rw [List.mem_singleton] at hx; subst hx; exact hlt
+    rcases ih (acc ++ [(buildSlot D typ ov cells sa).2]) (buildSlot D typ ov cells sa).1 htodo hacc' with
+      ⟨⟨t', ht'⟩, hlt', hview⟩
+    simp only [buildAll]
+    refine ⟨⟨t ++ t', by rw [ht', ht, List.append_assoc]⟩, hlt', ?_⟩
+    rw [hview, viewOf_append]
+    have e1 : viewOf (buildSlot D typ ov cells sa).1 acc = viewOf cells acc := by rw [ht]; exact viewOf_ext _ _ _ hacc
+    have e2 : viewOf (buildSlot D typ ov cells sa).1 todo = viewOf cells todo := by
+      rw [ht]; exact viewOf_ext _ _ _ (fun x hx => hsl x (List.mem_cons_of_mem _ hx))
+    have e3 : (buildSlot D typ ov cells sa).1[sa.2]? = cells[sa.2]? := by rw [ht]; exact getElem?_ext_left hsa
+    rw [e1, e2, List.append_assoc]
+    congr 1
+    simp only [viewOf, overlayView, overlaySlot, List.map_cons, List.map_nil, hval, hname, List.singleton_append]
+
+/-- **`WithConfig` end to end**: the new object shows the prototype's view overlaid with the override, every object
+that existed before looks as before, the store stays closed -/
+theorem withConfig_view (D : Desc V Ov) (σ σ' : Store V Ov) (p h : Nat) (ov : Ov) (hc : Closed σ)
+    (hw : withConfig D σ p ov = some (σ', h)) :
+    ∃ inst, σ.insts[p]? = some inst ∧ h = σ.insts.length ∧
+      σ'.view h = some (overlayView D inst.typ ov (viewOf σ.cells inst.slots)) ∧
+      (∀ k i, σ.insts[k]? = some i → σ'.view k = σ.view k) ∧ Closed σ' := by
+  unfold withConfig at hw
+  cases hi : σ.insts[p]? with
+  | none => rw [hi] at hw; cases hw
+  | some inst =>
+    rw [hi] at hw
+    simp only [Option.some.injEq, Prod.mk.injEq] at hw
+    rcases hw with ⟨hσ, hh⟩
+    subst hσ hh
+    rcases buildAll_spec D inst.typ ov inst.slots [] σ.cells (closed_slot hc hi) (by simp) with ⟨⟨t, ht⟩, hlt, hview⟩
+    refine ⟨inst, rfl, rfl, ?_, ?_, ?_⟩
+    · simp only [Store.view]
+      rw [List.getElem?_append_right (Nat.le_refl _)]
+      simp only [Nat.sub_self, List.getElem?_cons_zero, Option.map_some]
+      rw [hview]; simp [viewOf]
+    · intro k i hk
+      exact view_ext σ _ t [⟨inst.typ, (buildAll D inst.typ ov σ.cells inst.slots []).2⟩] hc ht rfl hk
+    · refine ⟨?_, by simp [hc.2]⟩
+      intro x hm sa hsa
+      rcases List.mem_append.mp hm with hm | hm
+      · show sa.2 < (buildAll D inst.typ ov σ.cells inst.slots []).1.length
+        rw [ht, List.length_append]; exact Nat.lt_of_lt_of_le (hc.1 x hm sa hsa) (Nat.le_add_right _ _)
+      · rw [List.mem_singleton] at hm; subst hm; exact hlt sa hsa
+
 /-! ## the executable scheduler runs the machine -/
 
 theorem next_step (D : Desc V Ov) (c c' : Config V Ov) (i : Nat) (h : next D c i = some c') : Step D c c' := by
